@@ -181,7 +181,7 @@ def run(tier):
         return {'what': 'crash', 'case': json.dumps(c)[:300]}
     vf.g_triage(rep, binary, [r for r in recs if r.get('k') != 'trace'], csig)
     lines = [json.dumps({k: v for k, v in r.items() if k not in ('k', 'idx', 'err', 'dev')}) for r in tr]
-    v = vf.validate_traces('trace/Trace_C08', 'trace/Trace_C08.cfg', lines, max_fail=12, timeout=2400)
+    v = vf.validate_traces('trace/Trace_C08', 'trace/Trace_C08.cfg', lines, max_fail=12, timeout=5400)
     rep.coverage['states'] += v['states']
     rep.coverage['transitions'] += v['transitions']
     for i in v['rejected']:
